@@ -7,7 +7,7 @@ COEF_SETS = [[-1, 1], [-1, 0, 1], [-3, -2, -1, 0, 1, 2, 3, 5, 7], [-100, -1, 0, 
 INT16 = [(-32768, 32767), (0, 32767), (-32768, 0)]
 
 
-def gen_poly(rng, max_rows=4, max_cols=4, allow_int16=True, small=False):
+def gen_poly(rng, max_rows=4, max_cols=4, allow_int16=True, small=False, narrow=True):
     n = rng.randint(1, max_cols)
     m = rng.randint(1, max_rows)
     bounds = []
@@ -54,7 +54,13 @@ def gen_poly(rng, max_rows=4, max_cols=4, allow_int16=True, small=False):
             r_[1 + j] = 0                                # zero column
     ids = rng.sample(["x", "y", "z", "w", "u", "v", "a b", "", "ä", "q,r"], n)
     idx = ["r%d" % i for i in range(m)] if rng.random() < 0.7 else None
-    return {"M": rows, "ids": ids, "bounds": [list(b) for b in bounds], "index": idx}
+    case = {"M": rows, "ids": ids, "bounds": [list(b) for b in bounds], "index": idx}
+    if narrow:
+        mx = max(abs(v) for r_ in rows for v in r_) if rows else 0
+        fits = [d for d, lim in (("int32", 2 ** 31), ("int16", 2 ** 15), ("int8", 2 ** 7)) if mx < lim]
+        if fits and rng.random() < 0.35:
+            case["dtype"] = rng.choice(fits)         # the matrix is stored in a narrower integer type
+    return case
 
 
 def build_poly(case, cls=None):
@@ -63,7 +69,10 @@ def build_poly(case, cls=None):
     kw = {}
     if case.get("index"):
         kw["index"] = [puan.variable(i) for i in case["index"]]
-    return cls(numpy.array(case["M"], dtype=numpy.int64), variables=variables, **kw)
+    P = cls(numpy.array(case["M"], dtype=numpy.int64), variables=variables, **kw)
+    if case.get("dtype"):
+        P = P.astype(getattr(numpy, case["dtype"]))
+    return P
 
 
 def read(P):
